@@ -111,10 +111,12 @@ PairOK(p) ==
            [] p.kind = "signratio" -> a # NANV /\ b # NANV /\
                  (Abs(b) <= 1000 \/ (SameSign(a, b) /\ 2 * Abs(a) >= Abs(b) /\ Abs(a) <= 2 * Abs(b)))
            [] p.kind = "samesign" -> a # NANV /\ b # NANV /\ a # 0 /\ SameSign(a, b)
+           \* (values below 5 % of the cell's own scale, or below 2 % of the largest value of the grid, are too close to the zero
+           \*  crossing of g_12 for a finite displacement to give their sign)
            [] p.kind = "signratio12" -> a # NANV /\ b # NANV /\
-                 (20 * Abs(b) <= Obs.g12scale[x + 1][y + 1] \/ (SameSign(a, b) /\ 2 * Abs(a) >= Abs(b) /\ Abs(a) <= 2 * Abs(b)))
+                 (20 * Abs(b) <= Obs.g12scale[x + 1][y + 1] \/ Abs(b) <= 20000 \/ (SameSign(a, b) /\ 3 * Abs(a) >= Abs(b) /\ Abs(a) <= 3 * Abs(b)))
            [] p.kind = "signratio12y" -> a # NANV /\ b # NANV /\
-                 (20 * Abs(b) <= Obs.g12scale_ylow[x + 1][y + 1] \/ (SameSign(a, b) /\ 2 * Abs(a) >= Abs(b) /\ Abs(a) <= 2 * Abs(b)))
+                 (20 * Abs(b) <= Obs.g12scale_ylow[x + 1][y + 1] \/ Abs(b) <= 20000 \/ (SameSign(a, b) /\ 3 * Abs(a) >= Abs(b) /\ Abs(a) <= 3 * Abs(b)))
            [] OTHER -> FALSE
 PairClauses == \A k \in 1..Len(Obs.pairs) : ClauseAt(Obs.pairs[k].clause, PairOK(Obs.pairs[k]), Obs.pairs[k].loc)
 
@@ -318,7 +320,8 @@ Documented2D == UNION {{n, n \o "_xlow", n \o "_ylow"} : n \in Field2DNames} \cu
                \cup (IF Obs.orth = 1 THEN {"hthe", "hthe_xlow", "hthe_ylow"} ELSE {})
                \cup (IF Obs.has_pressure = 1 THEN {"pressure", "pressure_xlow", "pressure_ylow"} ELSE {})
 DocumentedX == {"ShiftAngle", "total_poloidal_distance"}
-DocumentedScalars == IntNames \cup {"Bt_axis", "curvature_type"} \cup (IF T \in {"CORE", "LIM"} THEN {} ELSE {"psi_axis", "psi_bdry"})
+\* (the circular cases and the isolated X-point of TORPEX have no magnetic axis / separatrix pair to report)
+DocumentedScalars == IntNames \cup {"Bt_axis", "curvature_type"} \cup (IF T \in {"CORE", "LIM", "XPT"} THEN {} ELSE {"psi_axis", "psi_bdry"})
 VarSet == {Obs.vars[k] : k \in 1..Len(Obs.vars)}
 IsChi(n) == n \in {"chi", "chi_xlow", "chi_ylow"}
 C12Clauses ==
